@@ -56,7 +56,7 @@ def _entry(draw, anchor, allow_bad):
   if kind == 'range':
     ln = draw(st.one_of(st.integers(0, 5), st.integers(0, 70), st.integers(0, 400)))
     e['b'] = min(a + ln, MAX_ORD)
-    e['sep'] = draw(st.sampled_from([' - ', '-']))
+    e['sep'] = draw(st.sampled_from([' - ', '-', ' - ', '-', ' -', '- ', '  -  ']))
   if allow_bad and draw(st.integers(0, 5)) == 0:
     bad = draw(st.sampled_from(BAD_KINDS))
     e['bad'] = bad
